@@ -5,6 +5,7 @@
 //! Typed accessors (VolatileRef<T>, VolatileArrayRef<T>) are kept as *recipes* (source + arguments)
 //! and re-derived through the real derivation code on every use, because T varies at run time.
 use crate::util::*;
+use crate::types::*;
 use serde_json::{json, Value};
 use std::num::NonZeroUsize;
 use std::sync::atomic::Ordering;
@@ -51,94 +52,6 @@ impl Default for VolExec {
     fn default() -> Self {
         VolExec { heap: Vec::new(), base: std::ptr::null_mut(), bitmap: None, region: None, n: 0, p: 1, cur: None, root: None }
     }
-}
-
-macro_rules! with_ty {
-    ($esz:expr, $T:ident, $body:block) => {
-        match $esz {
-            0 => { type $T = [u8; 0]; $body }
-            1 => { type $T = u8; $body }
-            2 => { type $T = u16; $body }
-            3 => { type $T = [u8; 3]; $body }
-            4 => { type $T = u32; $body }
-            5 => { type $T = [u8; 5]; $body }
-            6 => { type $T = [u16; 3]; $body }
-            7 => { type $T = [u8; 7]; $body }
-            8 => { type $T = u64; $body }
-            12 => { type $T = [u32; 3]; $body }
-            16 => { type $T = u128; $body }
-            e => panic!("harness: unsupported element size {e}"),
-        }
-    };
-}
-
-macro_rules! with_aligned_ty {
-    ($esz:expr, $al:expr, $T:ident, $body:block) => {
-        match ($esz, $al) {
-            (1, 1) => { type $T = u8; $body }
-            (2, 1) => { type $T = [u8; 2]; $body }
-            (3, 1) => { type $T = [u8; 3]; $body }
-            (4, 1) => { type $T = [u8; 4]; $body }
-            (5, 1) => { type $T = [u8; 5]; $body }
-            (6, 1) => { type $T = [u8; 6]; $body }
-            (7, 1) => { type $T = [u8; 7]; $body }
-            (8, 1) => { type $T = [u8; 8]; $body }
-            (12, 1) => { type $T = [u8; 12]; $body }
-            (16, 1) => { type $T = [u8; 16]; $body }
-            (2, 2) => { type $T = u16; $body }
-            (4, 2) => { type $T = [u16; 2]; $body }
-            (6, 2) => { type $T = [u16; 3]; $body }
-            (8, 2) => { type $T = [u16; 4]; $body }
-            (12, 2) => { type $T = [u16; 6]; $body }
-            (16, 2) => { type $T = [u16; 8]; $body }
-            (4, 4) => { type $T = u32; $body }
-            (8, 4) => { type $T = [u32; 2]; $body }
-            (12, 4) => { type $T = [u32; 3]; $body }
-            (16, 4) => { type $T = [u32; 4]; $body }
-            (8, 8) => { type $T = u64; $body }
-            (16, 8) => { type $T = [u64; 2]; $body }
-            (16, 16) => { type $T = u128; $body }
-            (e, a) => panic!("harness: unsupported (size, align) ({e}, {a})"),
-        }
-    };
-}
-
-macro_rules! with_atomic_ty {
-    ($esz:expr, $T:ident, $body:block) => {
-        match $esz {
-            1 => { type $T = u8; $body }
-            2 => { type $T = u16; $body }
-            4 => { type $T = u32; $body }
-            8 => { type $T = u64; $body }
-            e => panic!("harness: unsupported atomic width {e}"),
-        }
-    };
-}
-
-fn bv<T: ByteValued>(v: &T) -> &[u8] {
-    ByteValued::as_slice(v)
-}
-
-fn from_bytes<T: ByteValued>(b: &[u8]) -> T {
-    let mut v = T::zeroed();
-    v.as_mut_slice().copy_from_slice(b);
-    v
-}
-
-fn elems<T: ByteValued>(b: &[u8]) -> Vec<T> {
-    let sz = std::mem::size_of::<T>();
-    if sz == 0 {
-        return Vec::new();
-    }
-    b.chunks_exact(sz).map(from_bytes::<T>).collect()
-}
-
-fn bytes_of<T: ByteValued>(v: &[T]) -> Vec<u8> {
-    let mut out = Vec::new();
-    for x in v {
-        out.extend_from_slice(x.as_slice());
-    }
-    out
 }
 
 pub fn verr(e: &VErr) -> Value {
